@@ -79,7 +79,7 @@ def gen_leaf(rng, t, shape, derivs=True, axis_len=3, mask=None):
             elif t in ('I', 'P'):
                 vis = rng.randint(-axis_len, axis_len - 1) if rng.random() < 0.85 else rng.choice([axis_len, -axis_len - 1, 5])
                 a = rng.randint(0, max(axis_len - 1, 0))
-                b = rng.choice(I_HID_ADV)
+                b = rng.choice(I_HID_ADV) if rng.random() < 0.5 else rng.randint(-axis_len, max(axis_len - 1, 0))
             else:
                 vis = rng.random() < 0.5
                 a = rng.random() < 0.5
@@ -288,6 +288,86 @@ class Gen:
         return (['getitem', ['i'], x, b], t, [1] + s)
 
 
+QUERIES = [lambda v: ['sum', [None], v], lambda v: ['mean', [None], v], lambda v: ['sum', [0], v], lambda v: ['ltc', [1.], v],
+           lambda v: ['gec', [0.], v], lambda v: ['max', [None], v], lambda v: ['min', [None], v], lambda v: ['median', [None], v],
+           lambda v: ['count_masked', [], v], lambda v: ['maximum', [], v, v], lambda v: ['eq', [], v, v],
+           lambda v: ['argmax', [None], v], lambda v: ['sort', [0], v]]
+BQUERIES = [lambda v: ['any', [None], v], lambda v: ['all', [None], v], lambda v: ['tvl_any', [None], v],
+            lambda v: ['count_masked', [], v], lambda v: ['not', [], v], lambda v: ['eq', [], v, v]]
+IOPS_F = ['iadd', 'isub', 'imul', 'itruediv', 'ifloordiv', 'imod', 'ipow']
+IOPS_B = ['iand', 'ior', 'ixor']
+
+
+def mk_prog(prog, env, kind):
+    case = {'prog': prog, 'env': env, 'kind': kind, 'variant': 'A', 'req': None}
+    case['nontrivial'] = any(differs(l) for l in env)
+    case['id'] = json.dumps([prog, env], sort_keys=True)[:400]
+    return case
+
+
+def gen_setitem(rng, shape):
+    """x[idx] = rhs through a (possibly masked) Scalar / Boolean / Pair index object, then queries on x"""
+    g = Gen(rng, shape, derivs=rng.random() < 0.3)
+    x, _, s = g.leaf('F', list(shape))
+    r = rng.random()
+    if r < 0.6:
+        ishape = rng.choice([[], [2], [3], [3], [4], [2, 2]])
+        pattern = rng.choice(['i', 'i', 'i', '...i', ':i']) if len(s) >= 2 else 'i'
+        axis = 0 if pattern == 'i' else len(s) - 1 if pattern == '...i' else 1
+        i, _, _ = g.leaf('I', ishape, axis_len=max(s[axis], 1))
+        rest = s[1:] if pattern == 'i' else s[:-1]
+        sel = list(ishape) + rest if pattern == 'i' else rest + list(ishape)
+    elif r < 0.85 or len(s) < 2:
+        k = rng.randint(1, len(s))
+        i, _, _ = g.leaf('B', s[:k])
+        pattern, sel = 'i', None
+    else:
+        ishape = rng.choice([[], [2], [3]])
+        i, _, _ = g.leaf('P', ishape, axis_len=max(min(s[0], s[1]), 1))
+        pattern, sel = 'i', list(ishape) + s[2:]
+    q = rng.random()
+    if q < 0.3:
+        rhs = rng.choice([99., 0., -7.])
+    elif q < 0.6 or sel is None:
+        rhs, _, _ = g.leaf('F', [])
+    else:
+        rhs, _, _ = g.leaf('F', sel)
+    prog = [['query', rng.choice(QUERIES)(x)], ['set', x[1], pattern, i, rhs],
+            ['query', rng.choice(QUERIES)(x)], ['query', ['getitem', [pattern], x, i]]]
+    return mk_prog(prog, g.env, 'setitem:' + env_t(g.env, i))
+
+
+def env_t(env, node):
+    return env[node[1]]['t'] if node[0] == 'v' else 'tree'
+
+
+def gen_history(rng, shape):
+    """cached queries -> in-place operator with a masked operand -> the same kind of queries again"""
+    boolean = rng.random() < 0.2
+    g = Gen(rng, shape, derivs=(not boolean) and rng.random() < 0.3)
+    t = 'B' if boolean else 'F'
+    x, _, s = g.leaf(t, list(shape))
+    qs = BQUERIES if boolean else QUERIES
+    prog = [['query', rng.choice(qs)(x)] for _ in range(rng.randint(1, 3))]
+    if rng.random() < 0.3:
+        prog.append(['query', ['as_mask_where_zero_or_masked', [], x]])
+    for _ in range(rng.randint(1, 2)):
+        op = rng.choice(IOPS_B if boolean else IOPS_F)
+        r = rng.random()
+        if r < 0.15 and not boolean:
+            y = rng.choice([2., 0., -0.5, 3.])
+        elif op == 'ipow':
+            y = rng.choice([2, 3, 0.5, -1, 1.5]) if rng.random() < 0.6 else g.leaf('F', [])[0]
+        else:
+            y, _, _ = g.leaf(t, rng.choice([list(s), [], list(s)]))
+            if y == x:
+                y, _, _ = g.leaf(t, [])
+        prog.append(['iop', op, x[1], y])
+        for _ in range(rng.randint(1, 3)):
+            prog.append(['query', rng.choice(qs)(x)])
+    return mk_prog(prog, g.env, 'history:' + ('B' if boolean else 'F'))
+
+
 def mk_case(tree, env, kind):
     case = {'tree': tree, 'env': env, 'kind': kind, 'variant': 'A'}
     case['nontrivial'] = any(differs(l) for l in env)
@@ -299,6 +379,9 @@ def finish(cases):
     """each generated pair becomes two cases: variant A carries the two-run oracle; both variants are tied to the model"""
     out = []
     for c in cases:
+        if 'prog' in c:
+            out.append(c)
+            continue
         req_a = M.request(c['tree'], c['env'], 'A')
         c['req'] = req_a
         out.append(c)
@@ -391,6 +474,13 @@ def gen_cases(rng, tier):
                       ['mul', [], a, f], ['div', [], a, f], ['eq', [], a, b], ['ne', [], a, b], ['sep', [], a, b],
                       ['pickle', [], a], ['norm_sq', [], a]):
                 cases.append(mk_case(t, g.env, 'vec:' + t[0]))
+    # 5b. statement-level programs on a shared object (oracle only): item ASSIGNMENT through masked index objects, and
+    #     histories  cached queries -> in-place operator with a masked operand -> queries again
+    for _ in range(400 if thorough else 45):
+        for shape in SHAPES:
+            if shape:
+                cases.append(gen_setitem(rng, shape))
+            cases.append(gen_history(rng, shape))
     # 6. compositions: expression trees to depth 3
     ntrees = 40000 if thorough else 9000
     for k in range(ntrees):
@@ -404,6 +494,8 @@ def gen_cases(rng, tier):
 # ------------------------------------------------------------------ real code
 def impl(case):
     """canonical observation of every node of the tree (post-order) on the real code, for this case's variant"""
+    if 'prog' in case:
+        return M.sxable([o for _, o in O.run_prog(case['prog'], case['env'], case.get('variant', 'A'))])
     nodes, ws = O.eval_nodes(case['tree'], case['env'], case.get('variant', 'A'))
     res = [o for _, _, o in nodes]
     return M.canon(res, case)
@@ -432,6 +524,18 @@ def field_diff(a, b):
 def oracle(case):
     """the property itself: two runs that differ only underneath the masks give the same observation at every node"""
     if case.get('variant', 'A') != 'A':
+        return None
+    if 'prog' in case:
+        ra = O.run_prog(case['prog'], case['env'], 'A')
+        rb = O.run_prog(case['prog'], case['env'], 'B')
+        prev = 'start'
+        for k, ((la, oa), (lb, ob)) in enumerate(zip(ra, rb)):
+            if oa != ob:
+                after = [l for l, _ in ra[:k] if not l.startswith('query')]
+                sig = 'leak:prog:%s:after-%s:%s' % (la, after[-1] if after else 'none', field_diff(oa, ob))
+                return (sig, 'hidden values change what statement %d (%s) of the program %s shows: run A gives %s, run B (storage '
+                        'under the masks overwritten) gives %s' % (k, la, C.sx(sxable(case['prog']))[:400],
+                                                                 C.sx(sxable(oa))[:300], C.sx(sxable(ob))[:300]))
         return None
     na, wa = O.eval_nodes(case['tree'], case['env'], 'A')
     nb, wb = O.eval_nodes(case['tree'], case['env'], 'B')
@@ -469,6 +573,8 @@ def sxable(o):
 
 def neighbours(case):
     """smaller cases near a mismatching one: every proper subtree, and the same tree with single leaves un-scrambled"""
+    if 'prog' in case:
+        return
     tree, env = case['tree'], case['env']
     seen = []
 
